@@ -12,6 +12,8 @@ import (
 	"os"
 	"path/filepath"
 	"strings"
+
+	"golang.org/x/net/idna"
 )
 
 type wptVector struct {
@@ -252,6 +254,13 @@ func (m *Machine) validateIdnaContract() (n, dev int, ok bool) {
 		for i := 0; i+4 <= len(l); i++ {
 			if (i == 0 || l[i-1] == '.') && l[i:i+4] == "xn--" {
 				return
+			}
+		}
+		// the raw Punycode profile: identity, no error
+		if ra, rerr := idna.Punycode.ToASCII(s); ra != s || rerr != nil {
+			dev++
+			if dev < 5 {
+				fmt.Printf("IDNA RAW CONTRACT DEVIATION %q -> %q err=%v\n", s, ra, rerr)
 			}
 		}
 		a, err := mir.prof.ToASCII(s)
